@@ -17,13 +17,13 @@ import (
 )
 
 var bindTypes = []string{"Plain", "OptNull", "Tuple", "Join", "Pairs", "MapSI", "ListS", "UnionK", "UnionKinded", "UnionSP", "EnumS", "EnumI", "Outer", "Nested",
-	"MapSU", "ListU", "MapSP", "ListT", "MapSN", "ListN", "OptComp", "OptMore", "UnionKinded2", "ListNP", "AllOpt", "Swap", "EnumX", "OptOne", "ListOO", "MapOO"}
+	"MapSU", "ListU", "MapSP", "ListT", "MapSN", "ListN", "OptComp", "OptMore", "UnionKinded2", "ListNP", "AllOpt", "Swap", "LeadOpt", "TupleOpt", "UnionSP2", "TupleON", "ListNA", "MapSA", "WithAny", "LeadOptLP", "EnumX", "OptOne", "ListOO", "MapOO"}
 var genTypes = []string{"Plain", "OptNull", "Tuple", "Join", "MapSI", "ListS", "UnionK", "UnionKinded", "UnionSP", "Outer",
-	"MapSU", "ListU", "MapSP", "ListT", "MapSN", "ListN", "OptComp", "OptMore", "UnionKinded2", "ListNP", "AllOpt", "Swap", "OptOne", "ListOO", "MapOO"}
+	"MapSU", "ListU", "MapSP", "ListT", "MapSN", "ListN", "OptComp", "OptMore", "UnionKinded2", "ListNP", "AllOpt", "Swap", "LeadOpt", "TupleOpt", "UnionSP2", "TupleON", "OptOne", "ListOO", "MapOO"}
 
 func views(engine int, name string) {
 	t := schemas.ByName(name)
-	g := &refschema.G{}
+	g := &refschema.G{NarrowInts: true} // (integer encodings are C02/C03's subject)
 	v := g.Gen(t)
 	want := refschema.Repr(t, v)
 	proto := typed.Proto(engine, name)
